@@ -267,7 +267,8 @@ class ForwardScheduler(IScheduler):
 
         is_leaf = len(_task.children) == 0
 
-        if _task.milestone:
+        # a summary task spans its children, whatever its milestone flag says
+        if _task.milestone and is_leaf:
             _task.start = _task.end = max_predecessor_ends
             _task.estimate = 0
             _task.spent = 0
@@ -446,7 +447,8 @@ class BackwardScheduler(IScheduler):
 
         is_leaf = len(_task.children) == 0
 
-        if _task.milestone:
+        # a summary task spans its children, whatever its milestone flag says
+        if _task.milestone and is_leaf:
             _task.start = _task.end = min_successor_starts
             _task.estimate = 0
             _task.spent = 0
